@@ -58,7 +58,8 @@ META = {
     'rule': 'task sets of 1-5 creators (plain tasks, groups with 1-3 sub-tasks, targets some of which are spelled like '
             'task names, names sharing prefixes, params/pos_arg, uptodate tasks, wild-card/setup/calc/implicit deps, '
             'acyclic) x argv of names, group names, sub-task names, targets, patterns matching 0..n names, unknown '
-            'names, option tokens x default_tasks x --single; plus all argv of length <= 3 over a 9-token alphabet on '
+            'names (also ones made of format metacharacters `{}` `{0}` `%s` `%(x)s`), option tokens x default_tasks x '
+            '--single; plus all argv of length <= 3 over a 9-token alphabet on '
             'fixed 3-4 task sets; non-trivial = the selection has >= 2 entries, or uses a pattern/target/option, or '
             'is rejected; distinct = distinct canonical case',
     'assumptions': ['patterns use only `*`, `?` and literal characters', 'task option tokens: short clusters, exact long '
@@ -209,6 +210,8 @@ def classify(case, m, st):
             st.count('arg:option-token')
         else:
             st.count('arg:other(unknown/value)')
+            if any(ch in a for ch in '{}%'):
+                st.count('arg:unknown-with-format-metachars')
     for full, d, grp, is_group in sellib.flat_defs(case):
         for key in ('task_dep', 'setup', 'calc_dep', 'file_dep', 'targets', 'params'):
             if d.get(key):
@@ -299,7 +302,7 @@ def shrink(case, workdir, budget=60):
     while progress and steps < budget:
         progress = False
         for cand in shrink_candidates(cur):
-            if not sellib.valid_case(cand):
+            if not cand['tasks'] or not sellib.valid_case(cand):      # keep a dodo with at least one task
                 continue
             steps += 1
             if steps >= budget:
@@ -388,7 +391,7 @@ SMALL_SETS = [
     # implicit dependency through a target, uptodate task with setup, calc_dep
     ([_t('mk', targets=['o1.out']), _t('use', file_dep=['o1.out']), _t('u', utd=True, setup=['mk'], task_dep=['use']),
       _t('c', calc_dep=['mk'], task_dep=['u*'])],
-     ['mk', 'use', 'u', 'c', 'o1.out', 'u*', '*', 'mk?', 'x']),
+     ['mk', 'use', 'u', 'c', 'o1.out', 'u*', '*', 'mk?', 'mk{}']),
 ]
 
 
